@@ -584,6 +584,49 @@ pub fn c20_check_one(rep: &mut Report, pats: &[Vec<u8>], cfg: &Cfg, shape: &str)
             }
         }
     }
+    // The same metadata read through a reference *type* (generic code that
+    // takes `A: Automaton` by value and is handed `&nfa` gets the blanket
+    // `impl Automaton for &A`, whose forwarding methods are separate code).
+    {
+        fn via<A: aho_corasick::automaton::Automaton>(a: A, n: usize) -> (usize, usize, usize, MatchKind, Vec<usize>) {
+            let lens = (0..n.min(64)).filter_map(|i| aho_corasick::PatternID::new(i).ok()).map(|pid| a.pattern_len(pid)).collect();
+            (a.patterns_len(), a.min_pattern_len(), a.max_pattern_len(), a.match_kind(), lens)
+        }
+        let got = guard(|| match &s {
+            S::N(a) => Some(via(a, pats.len())),
+            S::C(a) => Some(via(a, pats.len())),
+            S::D(a) => Some(via(a, pats.len())),
+            S::Top(_) => None,
+        });
+        match got {
+            Err(p) => bad.push(("by_reference_panic", format!("reading the metadata through &A panicked: {}", p))),
+            Ok(None) => {}
+            Ok(Some((n, mn, mx, mk, lens))) => {
+                rep.tally("metadata_read_through_reference_type");
+                if n != pats.len() {
+                    bad.push(("patterns_len", format!("<&A>::patterns_len() = {}, supplied {}", n, pats.len())));
+                }
+                if !pats.is_empty() {
+                    let (emn, emx) = (pats.iter().map(|p| p.len()).min().unwrap(), pats.iter().map(|p| p.len()).max().unwrap());
+                    if mn != emn {
+                        bad.push(("min_pattern_len", format!("<&A>::min_pattern_len() = {}, shortest supplied pattern has {}", mn, emn)));
+                    }
+                    if mx != emx {
+                        bad.push(("max_pattern_len", format!("<&A>::max_pattern_len() = {}, longest supplied pattern has {}", mx, emx)));
+                    }
+                }
+                if !mk_ok(mk) {
+                    bad.push(("match_kind", format!("<&A>::match_kind() = {:?}", mk)));
+                }
+                for (i, l) in lens.iter().enumerate() {
+                    if *l != pats[i].len() {
+                        bad.push(("pattern_len", format!("<&A>::pattern_len({}) = {}, supplied pattern has {}", i, l, pats[i].len())));
+                        break;
+                    }
+                }
+            }
+        }
+    }
     // pattern_len(i) on the low-level types
     let plen = |i: usize| -> Option<usize> {
         let pid = aho_corasick::PatternID::new(i).ok()?;
@@ -980,7 +1023,16 @@ pub fn cost_main(family: &str, n: usize, mode: &str, seed: u64) -> Result<String
             h.extend(std::iter::repeat(filler).take(OUTSIDE_BYTES));
             (h, (0, n))
         }
-        _ => return Err("mode must be full, span, tail or sub".into()),
+        "rfull" => {
+            // the two halves swapped: the part with the candidate bytes first,
+            // then a half without any (a search that keeps asking the
+            // prefilter after it has said "no more candidates" pays here)
+            let mut b = body;
+            let l = b.len();
+            b.rotate_left(l / 2);
+            (b, (0, l))
+        }
+        _ => return Err("mode must be full, rfull, span, tail or sub".into()),
     };
     let op = if family.starts_with("overlap-") {
         "overlap"
